@@ -544,8 +544,17 @@ evhttp_make_header_request(struct evhttp_connection *evcon,
 static int
 evhttp_is_connection_close(int flags, struct evkeyvalq* headers)
 {
-	const char *connection = evhttp_find_header(headers, "Connection");
-	return (connection != NULL && evutil_ascii_strcasecmp(connection, "close") == 0);
+	/* "close" may be one of several comma-separated connection options */
+	const char *p = evhttp_find_header(headers, "Connection");
+	while (p != NULL && *p != '\0') {
+		size_t n;
+		p += strspn(p, " \t,");
+		n = strcspn(p, " \t,");
+		if (n == 5 && evutil_ascii_strncasecmp(p, "close", 5) == 0)
+			return (1);
+		p += n;
+	}
+	return (0);
 }
 
 static int
